@@ -63,6 +63,7 @@ import (
 	"github.com/google/certificate-transparency-go/loglist3"
 	"github.com/google/certificate-transparency-go/submission"
 	"github.com/google/certificate-transparency-go/x509"
+	"github.com/google/certificate-transparency-go/x509/pkix"
 	"github.com/google/certificate-transparency-go/x509util"
 	"k8s.io/klog/v2"
 
@@ -901,6 +902,17 @@ func propTermination(gs []groupSpec, sc map[int]logScript, o *runObs, cs ctxSpec
 		case len(o.Inflight) == 0:
 			return false, "getscts never-returns no-call-in-flight ctx=" + cs.Kind
 		case goodCfg(gs) && enough(gs, sc):
+			// told apart by whether every call still in flight belongs to a log that ignores the
+			// cancellation of its context (a submitter outside the context contract)
+			deaf := true
+			for _, l := range o.Inflight {
+				if sc[l].HonourCtx {
+					deaf = false
+				}
+			}
+			if deaf {
+				return false, "getscts never-returns although-enough-logs-answered in-flight-ignores-cancellation ctx=" + cs.Kind
+			}
 			return false, "getscts never-returns although-enough-logs-answered ctx=" + cs.Kind
 		case o.HangAfterRelease:
 			return false, "getscts never-returns after-every-call-returned ctx=" + cs.Kind
@@ -1852,13 +1864,34 @@ func streamStress(t *testing.T, r *mrand.Rand, w adder, rounds int, outdir strin
 			w.Add(lib.Case{Coq: fmt.Sprintf("CNote %s", lib.Nn(uint64(10*round+2))), Input: map[string]interface{}{"kind": "stress-refresh-roots", "round": round},
 				Impl: map[string]interface{}{"results": results, "panic": o.Panic}, PropOK: ok, Note: note, Tags: []string{"D:refresh-roots"}})
 		}
-		// D3: Proxy log-list refresh against concurrent AddChain
-		{
+		// D3: log-list refreshes that CHANGE the list (version and the state of log 5), so that Proxy.Run
+		// replaces the distributor, against concurrent submissions through EVERY submission method of the
+		// Proxy: AddChain only, AddPreChain only, both mixed; in the "early" variants the submitters start
+		// before the proxy is initialised, so that calls also overlap the very first installation of a
+		// distributor (a refusal "not initialised" is then the right answer for a call that started no later
+		// than the instant at which Init was signalled).  The harness keeps its own synchronisation out of the
+		// way: submitters and the refreshing side share nothing of the harness's between two calls, so the
+		// only happens-before edges between a refresh and a submission are the Proxy's own.
+		for vi, variant := range []struct {
+			name    string
+			methods []string
+			early   bool
+		}{
+			{"add-chain", []string{"AddChain"}, false},
+			{"add-pre-chain", []string{"AddPreChain"}, false},
+			{"mixed", []string{"AddChain", "AddPreChain"}, false},
+			{"add-pre-chain-early", []string{"AddPreChain"}, true},
+			{"mixed-early", []string{"AddPreChain", "AddChain"}, true},
+		} {
 			sc := map[int]logScript{1: {oSCT, 3 * time.Millisecond, true}, 2: {oSCT, 10 * time.Millisecond, true}, 3: {oSCT, 17 * time.Millisecond, true},
 				4: {oSCT, 24 * time.Millisecond, true}, 5: {oSCT, 31 * time.Millisecond, true}}
 			path := filepath.Join(outdir, "c17-loglist.json")
 			writeLL := func(ver int) {
-				ll := mkLogList(ops)
+				vops := []opSpec{ops[0], {Google: ops[1].Google, Logs: append([]logSpec{}, ops[1].Logs...)}}
+				if ver%2 == 1 {
+					vops[1].Logs[2].Status = "usable" // log 5: pending <-> usable
+				}
+				ll := mkLogList(vops)
 				ll.Version = fmt.Sprintf("v%d", ver)
 				b, _ := json.Marshal(ll)
 				if err := os.WriteFile(path, b, 0o644); err != nil {
@@ -1866,11 +1899,19 @@ func streamStress(t *testing.T, r *mrand.Rand, w adder, rounds int, outdir strin
 				}
 			}
 			writeLL(0)
-			var results []string
-			var mu sync.Mutex
+			type callRec struct {
+				method  string
+				startAt time.Duration
+				n       int
+				err     string
+			}
+			var recs []callRec
+			var mu sync.Mutex // taken by submitters only (and by the evaluation after wg.Wait)
 			var rcur *recorder
+			var initAt time.Duration
 			o := runBubble(t, ctxDeadline(10*time.Minute), func(_ context.Context, rc *recorder) ([]int, bool) {
 				rcur = rc
+				t0 := time.Now()
 				ctx, cancel := context.WithCancel(context.Background())
 				defer cancel()
 				llm := submission.NewLogListManager(submission.NewCustomLogListRefresher(nil, path), nil)
@@ -1878,33 +1919,55 @@ func streamStress(t *testing.T, r *mrand.Rand, w adder, rounds int, outdir strin
 					id := idOf(l.URL)
 					return &scriptedClient{id: id, rc: &rcur, sc: &sc, roots: info[id].Roots}, nil
 				}, nil), nil)
-				p.Run(ctx, time.Second, 700*time.Millisecond)
-				<-p.Init
 				var wg sync.WaitGroup
-				var leaves []*pki.Entity
+				var leaves, preLeaves []*pki.Entity
 				for c := 0; c < 4; c++ {
 					leaves = append(leaves, pki.Issue(pki.Opts{CN: fmt.Sprintf("pleaf %d", c), KeyIdx: leafKeyI, NotBefore: nb, NotAfter: na}, rootCAs[0]))
+					preLeaves = append(preLeaves, pki.Issue(pki.Opts{CN: fmt.Sprintf("ppre %d", c), KeyIdx: leafKeyI, NotBefore: nb, NotAfter: na,
+						ExtraExt: []pkix.Extension{pki.PoisonExt()}}, rootCAs[0]))
 				}
-				for c := 0; c < 4; c++ {
-					wg.Add(1)
-					go func(c int) {
-						defer wg.Done()
-						leaf := leaves[c]
-						for j := 0; j < 8; j++ {
-							time.Sleep(time.Duration(200+c*53) * time.Millisecond)
-							res, err := p.AddChain(ctx, [][]byte{leaf.DER}, false)
-							verdict := "ok"
-							if err != nil || len(res) < 3 {
-								verdict = fmt.Sprintf("bad(n=%d err=%v)", len(res), err)
+				submitters := func() {
+					for c := 0; c < 4; c++ {
+						wg.Add(1)
+						go func(c int) {
+							defer wg.Done()
+							for j := 0; j < 10; j++ {
+								if !(variant.early && j == 0) {
+									time.Sleep(time.Duration(200+c*53) * time.Millisecond)
+								}
+								m := variant.methods[(c+j)%len(variant.methods)]
+								at := time.Since(t0)
+								var res []*submission.AssignedSCT
+								var err error
+								if m == "AddPreChain" {
+									res, err = p.AddPreChain(ctx, [][]byte{preLeaves[c].DER}, j%2 == 1)
+								} else {
+									res, err = p.AddChain(ctx, [][]byte{leaves[c].DER}, j%2 == 1)
+								}
+								rec := callRec{method: m, startAt: at, n: len(res)}
+								if err != nil {
+									rec.err = err.Error()
+								}
+								mu.Lock()
+								recs = append(recs, rec)
+								mu.Unlock()
+								if !variant.early {
+									_, _ = llm.GetTwoLatestLogLists()
+								}
 							}
-							mu.Lock()
-							results = append(results, verdict)
-							mu.Unlock()
-							_, _ = llm.GetTwoLatestLogLists()
-						}
-					}(c)
+						}(c)
+					}
 				}
-				for v := 1; v <= 4; v++ {
+				if variant.early {
+					submitters()
+				}
+				p.Run(ctx, time.Second, 700*time.Millisecond)
+				<-p.Init
+				initAt = time.Since(t0)
+				if !variant.early {
+					submitters()
+				}
+				for v := 1; v <= 5; v++ {
 					time.Sleep(900 * time.Millisecond)
 					writeLL(v)
 				}
@@ -1915,18 +1978,27 @@ func streamStress(t *testing.T, r *mrand.Rand, w adder, rounds int, outdir strin
 			})
 			os.Remove(path)
 			ok := o.Panic == ""
-			for _, v := range results {
-				if v != "ok" {
+			var bad []string
+			refused := 0
+			for _, rc := range recs {
+				switch {
+				case rc.err == "" && rc.n >= 3:
+				case strings.Contains(rc.err, "not initialized") && rc.startAt <= initAt:
+					refused++
+				default:
 					ok = false
+					bad = append(bad, fmt.Sprintf("%s@%v(n=%d err=%s)", rc.method, rc.startAt, rc.n, rc.err))
 				}
 			}
 			note := ""
 			if !ok {
-				sort.Strings(results)
-				note = "stress proxy-refresh " + strings.Join(results, ",") + " " + o.Panic
+				sort.Strings(bad)
+				note = "stress proxy-refresh " + variant.name + " " + strings.Join(bad, ",") + " " + o.Panic
 			}
-			w.Add(lib.Case{Coq: fmt.Sprintf("CNote %s", lib.Nn(uint64(10*round+3))), Input: map[string]interface{}{"kind": "stress-proxy", "round": round},
-				Impl: map[string]interface{}{"calls": len(results), "panic": o.Panic}, PropOK: ok, Note: note, Tags: []string{"D:proxy"}})
+			w.Add(lib.Case{Coq: fmt.Sprintf("CNote %s", lib.Nn(uint64(100*round+10*vi+3))), Input: map[string]interface{}{"kind": "stress-proxy", "round": round,
+				"variant": variant.name, "methods": variant.methods, "submitters_start_before_init": variant.early, "log_list_changes": 5},
+				Impl: map[string]interface{}{"calls": len(recs), "refused_before_init": refused, "panic": o.Panic}, PropOK: ok, Note: note,
+				Tags: []string{"D:proxy", "D:proxy:" + variant.name}})
 		}
 	}
 }
